@@ -80,9 +80,15 @@ def one_generation(acc, prop, m, seed, forced, fr, script=None, parsed=None):
             acc.count("parse_problem_dropped(C02's business)")
             return None
     targets = targets_for(m, fr) if forced else None
-    rng = probe.ScriptedRNG(script) if script is not None else np.random.default_rng(seed)
+    rng = probe.ScriptedRNG(script) if script is not None else probe.CountingRNG(seed)
     gres = gen.generate(parsed, rng, targets)
     case = {"text": text, "ast": m.to_json(), "seed": seed, "forced": forced, "fr": [list(x) for x in fr], "script": script}
+    if gres.status == "budget":
+        acc.case(None, labels=["gen:choice_budget"])
+        if prop == "C06":
+            acc.violation("terminates", f"generation of {text!r} made more than {getattr(rng, 'limit', '?')} random choices "
+                          f"(bound for a correct generation with these targets, safety factor 3)", case, {}, size=len(text))
+        return parsed
     if gres.status == "timeout":
         acc.count("generation_wall_clock_guard(inconclusive)")
         return parsed
